@@ -498,3 +498,40 @@ def fe_guard_groups():
 
 ALL["fe_guard_shapes"] = fe_guard_shapes
 ALL["fe_guard_groups"] = fe_guard_groups
+
+
+def _ids_mixed(policy, name):
+    """sub-machine whose rows are listed interleaved across its 3 regions, so that state ids are NOT monotone in the
+    region index (region order and id order disagree in most configurations); entered normally, by direct entry, by
+    forks naming a subset of regions; left from every configuration"""
+    return {
+        "name": name,
+        "events": ["E0", "E1", "E2", "E3", "E4", "E5"],
+        "machines": [
+            {"name": "Top", "regions": [["A", "S"], ["C", "D"]], "kinds": {"S": "sub:Sub"},
+             "rows": ["D + E5 / a12 -> C", "A + E0 / a0 -> S", "S + E3 [g0] / a1 -> A", "A + E4 / a2 -> S.K1", "C + E5 / a3 -> D",
+                      "A + E5 [g1] / a4 -> S.K0|S.K2", "S + E4 / a5 -> A", "A + E1 / a13 -> S"]},
+            {"name": "Sub", "regions": [["P0", "Q0", "K0"], ["P1", "Q1", "K1"], ["P2", "Q2", "K2"]],
+             "kinds": {"K0": "explicit", "K1": "explicit", "K2": "explicit"},
+             "history": policy,
+             "rows": ["Q2 + E2 / a6 -> K2", "P1 + E1 [g2] / a7 -> Q1", "K0 + E0 -> P0", "P2 + E2 [g3] / a8 -> Q2",
+                      "Q1 + E1 / a9 -> K1", "P0 + E0 [g4] / a10 -> Q0", "K2 + E2 -> P2", "Q0 + E0 / a11 -> K0", "K1 + E1 -> P1"]},
+        ],
+    }
+
+
+def ids_mixed_none():
+    return _ids_mixed("none", "ids_mixed_none")
+
+
+def ids_mixed_always():
+    return _ids_mixed("always", "ids_mixed_always")
+
+
+def ids_mixed_shallow():
+    return _ids_mixed("shallow:E1,E5", "ids_mixed_shallow")
+
+
+ALL["ids_mixed_none"] = ids_mixed_none
+ALL["ids_mixed_always"] = ids_mixed_always
+ALL["ids_mixed_shallow"] = ids_mixed_shallow
